@@ -1,6 +1,7 @@
 package rules
 
 import (
+	"go/ast"
 	"go/types"
 	"strings"
 
@@ -162,6 +163,24 @@ func c04Contained(c *Ctx) {
 				}
 			}
 		}
+		// functions whose value is taken (method values, function values handed to the runtime): they have callers we cannot see
+		usedAsValue := map[*ssa.Function]bool{}
+		for _, fn := range c.genFuncs(g) {
+			for _, b := range fn.Blocks {
+				for _, in := range b.Instrs {
+					for _, op := range in.Operands(nil) {
+						f, ok := (*op).(*ssa.Function)
+						if !ok {
+							continue
+						}
+						if call, isCall := in.(ssa.CallInstruction); isCall && call.Common().Value == ssa.Value(f) {
+							continue
+						}
+						usedAsValue[f] = true
+					}
+				}
+			}
+		}
 		complexity := c.genFunc(g, "Complexity")
 		var covered func(fn *ssa.Function, at ssa.Instruction, depth int, trail map[*ssa.Function]bool) (bool, string)
 		covered = func(fn *ssa.Function, at ssa.Instruction, depth int, trail map[*ssa.Function]bool) (bool, string) {
@@ -199,6 +218,10 @@ func c04Contained(c *Ctx) {
 			// top-level helper: every execution-phase caller must cover the call
 			cs := callers[fn]
 			if len(cs) == 0 {
+				if !usedAsValue[fn] && fn.Parent() == nil && !ast.IsExported(fn.Name()) {
+					// generated but never called and never referenced (e.g. the args function of a directive that has no executable location): unreachable
+					return true, fn.Name() + " is never called or referenced"
+				}
 				return false, fn.Name() + " has no recover and no analysable caller"
 			}
 			ncov := 0
